@@ -16,4 +16,9 @@ def jobs(tier, ws, prop='C16'):
                               replace=['ncmpio_fill.c:fill_var_buf', 'ncmpio_write_numrecs'], defines=['-DNPROCS=%d' % np_, '-DRANK=%d' % rk, '-DXSZ=%d' % xsz], extra_src=MODEL,
                               canaries=['grew', 'fixed_filled', 'failure_reported', 'bad_fill_attribute'], unwind=40, kind='bounded', timeout=240,
                               bound='%d processes, rank %d, element size %d (enumerated); element count (< 100000), record number symbolic' % (np_, rk, xsz)))
+    for np_, rk, nr, no in ([(2, 1, 2, 1), (3, 0, 1, 0), (1, 0, 0, 0)] if tier == 'quick' else [(2, 0, 2, 1), (2, 1, 2, 1), (3, 0, 1, 0), (3, 2, 2, 0), (1, 0, 0, 0), (1, 0, 3, 1), (4, 3, 1, 2)]):
+        js.append(Job('%s/fillerup_aggregate/nprocs%d_rank%d_nrecs%d_existing%d' % (prop, np_, rk, nr, no), prop, FL_, 'C16_fillerup.c', enforce='ncmpio_fill.c:fillerup_aggregate',
+                      replace=['ncmpio_fill.c:fill_var_buf'], defines=['-DNPROCS=%d' % np_, '-DRANK=%d' % rk, '-DNRECS=%d' % nr, '-DNOLDV=%d' % no, '-DMPI_MODEL_RECORD_HINDEXED=8'], extra_src=MODEL,
+                      canaries=(['two_segments'] if nr <= 1 else ['segment_per_record']) + ['nothing_to_fill', 'write_failure_reported', 'bad_fill_value'], unwind=40, kind='bounded', timeout=600, solver=['--sat-solver', 'cadical'],
+                      bound='%d processes, rank %d, %d existing records, %d existing + 2 new variables of symbolic kind / fill mode / length (< 100000 elements of 4 bytes)' % (np_, rk, nr, no)))
     return js
